@@ -221,7 +221,7 @@ CloseViol ==
              (leftAt >= 0 /\ ~closing /\ ReplaceMark \notin mayFault /\ tear = 0) => notified)
 CloseEff ==
     /\ open' = FALSE /\ leftAt' = -1 /\ inq' = <<>>
-    /\ tear' = IF notified THEN 0 ELSE tear
+    /\ tear' = 0                        \* _reset() forgets the pending teardown whatever ended the session
     /\ UNCHANGED <<fsm, sentOpen, gotOpen, gotKA, hold, fault, mayFault, closing, notified, lastRx, lastKA, connAt, apiUp>>
 
 ApiUpViol == Chk("C05-api-up-outside-established", fsm = "ESTABLISHED")
